@@ -14,44 +14,62 @@ Open Scope Z_scope.
 Definition all_idle (s : rstate) : Prop := forall x, c_pc (r_cs s x) = [].
 
 (** every operation is accepted in a state in which no connection's
-    goroutine has anything left to do *)
+    goroutine has anything left to do (in particular no session is cancelled
+    while its recv loop is at work) *)
 Fixpoint solo_sched (s : rstate) (tr : list label) : Prop :=
   match tr with
   | [] => True
   | l :: tr' =>
-      match l with LOp c o => accepted s c = true -> all_idle s | _ => True end /\ solo_sched (step s l) tr'
+      match l with LOp c o => op_taken s c o = true -> all_idle s | _ => True end /\ solo_sched (step s l) tr'
   end.
 
 Record SoloInv (st : istate) : Prop := mkSolo {
   so_one : forall x y, c_pc (r_cs (i_s st) x) <> [] -> c_pc (r_cs (i_s st) y) <> [] -> x = y;
+  so_cancel : r_cancel (i_s st) = [];
+  so_open : forall h, In h (i_hops st) -> h_d h = None -> is_close (h_o h) = false ->
+              c_pc (r_cs (i_s st) (h_c h)) <> [] /\ (is_disc (h_o h) = false -> c_dead (r_cs (i_s st) (h_c h)) = false);
   so_seq : forall h k, In h (i_hops st) -> In k (i_hops st) -> h_b h < h_b k -> is_close (h_o h) = false ->
              exists d, h_d h = Some d /\ d < h_b k
 }.
 
 Lemma SoloInv_init buf : SoloInv (i_init buf).
-Proof. constructor; [intros x y H; cbn in H; congruence | intros h k []]. Qed.
+Proof. constructor; [intros x y H; cbn in H; congruence | reflexivity | intros h [] | intros h k []]. Qed.
 
-Lemma accepted_true s c : accepted s c = true <-> c_pc (r_cs s c) = [] /\ c_dead (r_cs s c) = false.
+Lemma op_taken_true s c o :
+  op_taken s c o = true <->
+  c_dead (r_cs s c) = false /\ ~ In c (r_cancel s) /\ (c_pc (r_cs s c) = [] \/ o = ODisc).
 Proof.
-  unfold accepted. rewrite andb_true_iff, is_nil_true, negb_true_iff. tauto.
+  unfold op_taken. rewrite !andb_true_iff, orb_true_iff, !negb_true_iff, mem_conn_false, is_nil_true.
+  assert (E : is_disc o = true <-> o = ODisc) by (destruct o; cbn; split; congruence). rewrite E. tauto.
 Qed.
 
-Theorem SoloInv_step st l :
-  HInv st -> (match l with LOp c o => accepted (i_s st) c = true -> all_idle (i_s st) | _ => True end) ->
+Theorem SoloInv_step buf st l :
+  reachable buf (i_s st) -> HInv st ->
+  (match l with LOp c o => op_taken (i_s st) c o = true -> all_idle (i_s st) | _ => True end) ->
   SoloInv st -> SoloInv (istep st l).
 Proof.
-  intros HI Hsolo SI. pose proof (istep_hchange st l) as HC.
+  intros R HI Hsolo SI. pose proof (istep_hchange st l) as HC. pose proof (Inv_reachable buf _ R) as I.
   destruct (step_trans (i_s st) l) as [E|T].
   { destruct (istep_stutter st l E) as [EH _]. constructor; rewrite ?istep_s, ?E, ?EH; apply SI. }
   pose proof (trans_actor _ _ _ T) as Act. pose proof (istep_hops_trans st l T) as EH.
+  pose proof (so_cancel st SI) as Hcan.
+  (* an operation is taken only when everybody is idle *)
+  assert (Taken : forall c o, l = LOp c o -> all_idle (i_s st)).
+  { intros c o ->. apply Hsolo. apply op_taken_true. destruct Act as (A1 & A2 & A3).
+    split; [assumption|]. split; [assumption|]. destruct A3 as [A3|[A3 _]]; auto. }
+  (* no cancellation, hence no deferral *)
+  assert (Ecan : r_cancel (step (i_s st) l) = []).
+  { destruct (trans_cancel _ _ _ T) as [Ec|[(c & El & Hne & _)|(c & El & _ & Hin & _)]]; [congruence | |rewrite Hcan in Hin; contradiction].
+    exfalso. apply Hne. now apply (Taken c ODisc). }
   (* which connections can be busy afterwards *)
   assert (Busy : forall x, c_pc (r_cs (step (i_s st) l) x) <> [] ->
             c_pc (r_cs (i_s st) x) <> [] \/ (exists o, l = LOp x o /\ all_idle (i_s st))).
   { intros x Hx. destruct (label_of_conn x l) eqn:Hl.
-    - destruct l as [c o|c|c c' ord|c|c]; cbn in Hl; try discriminate; apply Nat.eqb_eq in Hl; subst c.
-      + right. exists o. split; [reflexivity|]. apply Hsolo. now apply accepted_true.
+    - destruct l as [c o|c|c c' ord|c|c|c]; cbn in Hl; try discriminate; apply Nat.eqb_eq in Hl; subst c.
+      + right. exists o. split; [reflexivity|]. now apply (Taken x o).
+      + left. destruct Act as [A|A]; [assumption | rewrite Hcan in A; contradiction].
       + now left.
-      + now left.
+      + left. apply Act.
     - left. now rewrite <- (trans_pc_other _ _ _ _ T Hl). }
   constructor; rewrite ?istep_s.
   - intros x y Hx Hy.
@@ -60,6 +78,47 @@ Proof.
     + subst l. exfalso. apply Bx. apply Idle'.
     + exfalso. apply By. apply Idle.
     + now inversion El.
+  - exact Ecan.
+  - (* open operations belong to busy connections *)
+    intros h' Hh' Hd' Hc'.
+    destruct (hchange_bwd _ _ _ h' HC Hh') as [(h & Hh & (S1 & S2 & S3) & Evh)|(c & o & -> & EH')].
+    + assert (Hd : h_d h = None) by (destruct Evh as [Evh|(Evh & _)]; congruence).
+      rewrite S2 in Hc'. destruct (so_open st SI h Hh Hd Hc') as [Hne Hdead]. rewrite S1, S2.
+      destruct (label_of_conn (h_c h) l) eqn:Hl.
+      * (* the connection of h acts: its program must go on, else h would have ended *)
+        destruct l as [c o|c|c c' ord|c|c|c]; cbn in Hl; try discriminate; apply Nat.eqb_eq in Hl.
+        -- exfalso. apply Hne. rewrite Hl. apply (Taken c o eq_refl).
+        -- rewrite Hl in *.
+           assert (Hdd : c_dead (r_cs (step (i_s st) (LRun c)) c) = c_dead (r_cs (i_s st) c)).
+           { destruct (trans_ops _ _ _ c T) as [[_ X]|(o & _ & X & _)]; [assumption | contradiction]. }
+           rewrite Hdd. split; [|assumption]. intro Hpc'.
+           (* the program ends: h gets its end stamp *)
+           rewrite EH in Hh'. apply is_nil_false in Hne. rewrite Hne in Hh'. apply is_nil_true in Hpc'. rewrite Hpc' in Hh'. cbn [negb andb] in Hh'.
+           apply in_map_iff in Hh' as [h0 [E0 Hh0]].
+           assert (h0 = h).
+           { eapply hop_eq_of_b; [apply HI | assumption | assumption|]. rewrite <- E0, close1_b in S3. exact S3. }
+           subst h0. rewrite <- E0 in Hd'.
+           assert (Ek : is_disc (h_o h) = is_unsub_head (c_pc (r_cs (i_s st) c))).
+           { destruct (is_disc (h_o h)) eqn:Ek.
+             - (* an idle disconnect: the program is the deferred UnsubscribeAll *)
+               destruct (h_disc st HI h Hh Ek) as (_ & [X|X] & _); [rewrite Hcan in X; contradiction|]. rewrite Hl in X.
+               apply is_nil_false in Hne. destruct (inv_dead _ I c X) as [Y|[Y _]]; rewrite Y in *; [reflexivity | contradiction].
+             - specialize (Hdead eq_refl). destruct (is_unsub_head (c_pc (r_cs (i_s st) c))) eqn:Eu; [|reflexivity]. exfalso.
+               destruct (c_pc (r_cs (i_s st) c)) as [|i0 r0] eqn:Epc; [discriminate|]. destruct i0; try discriminate.
+               pose proof (inv_pc _ I c) as P. rewrite Epc in P. destruct (pc_ok_inv_unsuball _ _ _ P) as [_ X]. congruence. }
+           rewrite (close1_open _ c _ h Hl Hd Hc' Ek) in Hd'. discriminate.
+        -- rewrite Hl in *. pose proof (trans_visit_pc _ _ _ _ _ T) as X. split; [assumption|].
+           destruct (trans_ops _ _ _ c T) as [[_ Y]|(o & [Y|(Y & _)] & _)]; [now rewrite Y | discriminate | discriminate].
+        -- exfalso. destruct Act as [_ A]. rewrite Hcan in A. contradiction.
+      * rewrite (trans_pc_other _ _ _ _ T Hl), (trans_dead_other _ _ _ _ T Hl). auto.
+    + (* the operation accepted now *)
+      cbn [h_c h_o] in *. destruct (istep_new_inv st l _ T EH') as [El _]. cbn in El. subst l.
+      destruct (trans_ops _ _ _ c T) as [[X _]|(o' & [El|(El & _)] & Hpc & _ & Ed & Ep)]; [|inversion El; subst o'|discriminate].
+      * exfalso. assert (Idle : all_idle (i_s st)) by (apply (Taken c o eq_refl)).
+        destruct Act as (A1 & A2 & _). unfold step in X. cbn [enabled step_enabled] in X. rewrite (Idle c), A1 in X.
+        apply mem_conn_false in A2. rewrite A2 in X. cbn [orb r_cs with_cs] in X. rewrite upd_same in X. cbn in X.
+        apply (f_equal (@length op)) in X. rewrite app_length in X. cbn in X. lia.
+      * rewrite Ep, Ed. split; [now apply program_nonnil | auto].
   - intros h' k' Hh' Hk' Hlt Hc.
     destruct (hchange_bwd _ _ _ h' HC Hh') as [(h & Hh & (S1 & S2 & S3) & Evh)|(c & o & -> & EH')].
     2:{ exfalso. cbn in Hlt.
@@ -72,16 +131,18 @@ Proof.
     + (* k' is the operation accepted now: everybody was idle, so h had ended *)
       cbn [h_b].
       destruct (istep_new_inv st l _ T EH') as [El _]. cbn in El. subst l.
-      assert (Idle : all_idle (i_s st)) by (apply Hsolo; now apply accepted_true).
+      assert (Idle : all_idle (i_s st)) by (apply (Taken c2 o2 eq_refl)).
       destruct (h_d h) as [d|] eqn:Hd.
       * exists d. split; [destruct Evh as [Evh|(Evh & _)]; congruence|]. destruct (h_time st HI h Hh) as [_ Ht]. specialize (Ht d Hd). lia.
-      * exfalso. destruct (h_open st HI h Hh Hd Hc) as [Hne _]. apply Hne. apply Idle.
+      * exfalso. destruct (so_open st SI h Hh Hd Hc) as [Hne _]. apply Hne. apply Idle.
 Qed.
 
-Lemma SoloInv_irun tr : forall st, HInv st -> solo_sched (i_s st) tr -> SoloInv st -> SoloInv (irun st tr).
+Lemma SoloInv_irun buf tr : forall st,
+  reachable buf (i_s st) -> HInv st -> solo_sched (i_s st) tr -> SoloInv st -> SoloInv (irun st tr).
 Proof.
-  induction tr as [|l tr IH]; intros st HI Hs SI; [assumption|].
-  destruct Hs as [Hs1 Hs2]. rewrite irun_cons. apply IH; [now apply HInv_step | now rewrite istep_s | now apply SoloInv_step].
+  induction tr as [|l tr IH]; intros st R HI Hs SI; [assumption|].
+  destruct Hs as [Hs1 Hs2]. rewrite irun_cons.
+  apply IH; [rewrite istep_s; now constructor | now apply (HInv_step buf) | now rewrite istep_s | now apply (SoloInv_step buf)].
 Qed.
 
 (* ------------------------------------------------------------------ *)
@@ -197,13 +258,13 @@ Definition Psi (H : list hop) (x : conn) (sub : str) (e : event) (t : ptag) : Pr
     pub_nth H (fst t) (snd t) P /\ h_o P = OEvent e /\ In q H /\ h_o q = OReq sub fs /\
     sub_matches e fs = true /\ In (sub, fs) (open_subs x (before_of H (h_b P)) []).
 
-Lemma open_subs_close x c k : forall L acc, open_subs x (List.map (close1 c k) L) acc = open_subs x L acc.
+Lemma open_subs_close x d c k : forall L acc, open_subs x (List.map (close1 d c k) L) acc = open_subs x L acc.
 Proof.
   induction L as [|a L IH]; intro acc; [reflexivity|]. cbn [List.map open_subs]. rewrite close1_c, close1_o.
   destruct (Nat.eqb (h_c a) x); [destruct (h_o a)|]; apply IH.
 Qed.
 
-Lemma before_of_close c k H b : before_of (close_hop c k H) b = List.map (close1 c k) (before_of H b).
+Lemma before_of_close d c k H b : before_of (close_hop d c k H) b = List.map (close1 d c k) (before_of H b).
 Proof. apply filter_map_commute. intro a. now rewrite close1_b. Qed.
 
 Lemma Psi_stable now H H' x sub e t :
@@ -215,7 +276,7 @@ Proof.
   destruct (hchange_fwd _ _ _ q HC Hq) as (q' & Hq' & (Sq1 & Sq2 & Sq3) & _).
   exists P', q', fs. split; [assumption|]. split; [congruence|]. split; [assumption|]. split; [congruence|].
   split; [assumption|]. rewrite SP3.
-  destruct HC as [->| c o ->| c ->].
+  destruct HC as [->| c o ->| d c ->].
   - assumption.
   - unfold before_of. rewrite filter_app. cbn [filter h_b].
     assert (E : (now <? h_b P) = false) by (apply Z.ltb_ge; specialize (Time P HPin); lia).
@@ -260,7 +321,8 @@ Proof.
   (* nobody else is busy: nothing is pending against the subscription *)
   assert (NoLater : forall k, In k (i_hops st) -> h_c k = x -> h_b q < h_b k -> op_ends (h_o k) sub = false).
   { intros k Hin Hck Hb. destruct (op_ends (h_o k) sub) eqn:He; [|reflexivity]. exfalso.
-    destruct (Hk k Hin Hck Hb He) as [Pd _]. apply eff_pending_has in Pd.
+    destruct (Hk k Hin Hck Hb He) as [Pd _]. apply eff_pending_has in Pd as [Pd|[_ Pd]];
+      [|rewrite (so_cancel st SI) in Pd; contradiction].
     assert (Hx : c_pc (r_cs (i_s st) x) <> []) by (intro X; rewrite X in Pd; discriminate).
     assert (Hc : c_pc (r_cs (i_s st) c) <> []) by (rewrite Hpc; discriminate).
     rewrite (so_one st SI x c Hx Hc), Hpc, Erest in Pd. discriminate. }
@@ -317,7 +379,7 @@ Proof.
   induction tr as [|l tr IH]; intros st A SI CI Hs; [auto|].
   destruct Hs as [Hs1 Hs2]. rewrite irun_cons. apply IH.
   - now apply AllInv_step.
-  - apply SoloInv_step; [apply A | assumption | assumption].
+  - apply (SoloInv_step buf); [apply A | apply A | assumption | assumption].
   - eapply CopyInv3_step; try eassumption; apply A.
   - now rewrite istep_s.
 Qed.
